@@ -4,7 +4,7 @@ CONSTANTS N = 5
   Cycles = 6
   Drops = {0, 1, 2, 3, 4}
   CharUsers = {0, 2, 5}
-  Extras = {"none", "err1", "err2", "aerr1", "aerr2", "aerr3", "tick", "conn", "drop5", "force"}
+  Extras = {"none", "err1", "err2", "aerr1", "aerr2", "aerr3", "exec1", "exec2", "exec3", "tick", "conn", "drop5", "force"}
   Sim = TRUE
 INVARIANT Emit
 CHECK_DEADLOCK FALSE
